@@ -50,6 +50,15 @@ private name is matched, so renaming, inlining, extracting or merging helpers ca
               The status channel is exactly-once: the Broadcast a tracker's `Sender[ComponentStatus]` comes from has
               exactly one `new_receiver()` in the owner, made as often as the channel itself (else the pool's loop sees
               each change once per receiver and publishes that many identical ComponentPoolStatus notifications).
+  C16.OUTCOME the (succeeded, failed) sets that reach the per-battery trackers are the outcome of the power command itself:
+              the pool tracker's publishing method (found by role: it builds a SetPowerResult and sends it) sends
+              exactly one per call on every path, its `failed` field is the argument as given, no field reads the pool's
+              own state, the two fields come from different arguments; at every call site of that method (followed out of
+              the anchored files, e.g. BatteryManager._distribute_power; through private helpers from their callers)
+              the succeeded set — after the pool's forwarding — is disjoint from the failed set by construction on every
+              path (`x - failed`, `.difference`, `{.. if v not in failed}`, or `failed` decided empty on the path), and
+              the failed set is the one the returned result names as failed.
+              (Reads the reporting site outside the anchored files: .../_component_managers/_battery_manager.py.)
   C16.POOL    the pool tracker's status loop (found by role; what consumers see): for every status
               message and every path consistent with a status value (the enum is closed), the reported
               component ends in `working` only for WORKING, in `uncertain` only for UNCERTAIN and in
@@ -59,13 +68,14 @@ private name is matched, so renaming, inlining, extracting or merging helpers ca
 from __future__ import annotations
 
 import ast
+import copy
 from typing import Any, Callable
 
 from ..engine.normalize import positional
 from ..engine.report import AnalysisError, Run
 from ..engine.resolver import FuncInfo, Program, walk_no_nested
-from ._c16_util import (Atom, Exec, PathSum, State, Unsupported, eq_key, in_key, is_key, lt_key, parse_expr, poly,
-                        text, truthy_key, u)
+from ._c16_util import (Atom, Exec, PathSum, State, Unsupported, _is_pure_call, eq_key, in_key, is_key, lt_key, parse_expr,
+                        poly, text, truthy_key, u)
 
 MOD = "microgrid._power_distributing._component_status._battery_status_tracker"
 TR = f"{MOD}:BatteryStatusTracker"
@@ -867,6 +877,351 @@ def check_pool(run: Run, prog: Program) -> None:
               "is left): consumers keep using the previous sets", node=fn.node, file=fn.file, path=wit(bad))
 
 
+# ------------------------------------------------------------------------------ the outcome handed to the trackers
+OUTCOME = "SetPowerResult"  # the message class of the outcome channel (CSMOD); its fields are what the trackers read
+_SET_WRAPPERS = ("set", "frozenset", "list", "tuple", "sorted")
+_OPAQUE_PREFIXES = ("ARG<", "LOOP", "HAVOC", "PREVIOUS<", "WITH")
+
+
+def _arg(name: str) -> str:
+    return f"ARG<{name}>"
+
+
+def _show(e: ast.AST | str) -> str:
+    """Source-like text of a resolved expression: the markers of parameters and stepped-over loops are dropped."""
+    import re
+    return re.sub(r"\b(?:ARG|PREVIOUS|LOOP\d+|HAVOC\d+|WITH\d+)<([^<>]+)>", r"\1", e if isinstance(e, str) else text(e))
+
+
+def _strip_set(e: ast.AST) -> ast.AST:
+    """The set an expression denotes, through what does not change its elements: `set(x)` / `frozenset(x)` / `x.copy()`
+    / `{v for v in x}`, and `<Ctor>(..., f=x, ...).f` (a field read back from the object just built)."""
+    while True:
+        if isinstance(e, ast.Await):
+            return e
+        if isinstance(e, ast.Call) and u(e.func) in _SET_WRAPPERS and len(e.args) == 1 and not e.keywords \
+                and not isinstance(e.args[0], ast.Starred):
+            e = e.args[0]
+        elif isinstance(e, ast.Call) and isinstance(e.func, ast.Attribute) and e.func.attr == "copy" and not e.args and not e.keywords:
+            e = e.func.value
+        elif isinstance(e, ast.Attribute) and isinstance(e.value, ast.Call) and [k for k in e.value.keywords if k.arg == e.attr]:
+            e = [k.value for k in e.value.keywords if k.arg == e.attr][0]
+        elif isinstance(e, (ast.SetComp, ast.ListComp, ast.GeneratorExp)) and len(e.generators) == 1 and not e.generators[0].ifs \
+                and isinstance(e.elt, ast.Name) and isinstance(e.generators[0].target, ast.Name) \
+                and e.elt.id == e.generators[0].target.id and not e.generators[0].is_async:
+            e = e.generators[0].iter
+        else:
+            return e
+
+
+def _is_empty_set(e: ast.AST) -> bool:
+    return (isinstance(e, ast.Call) and u(e.func) in ("set", "frozenset") and not e.args and not e.keywords) or (
+        isinstance(e, (ast.Set, ast.Tuple, ast.List)) and not e.elts)
+
+
+def _is_opaque(e: ast.AST) -> bool:
+    return isinstance(e, ast.Name) and e.id.startswith(_OPAQUE_PREFIXES)
+
+
+def _kleene_any(vals: list[bool | None]) -> bool | None:
+    return True if any(v is True for v in vals) else None if any(v is None for v in vals) else False
+
+
+def _kleene_all(vals: list[bool | None]) -> bool | None:
+    return False if any(v is False for v in vals) else None if any(v is None for v in vals) else True
+
+
+def disjoint_by_construction(s: ast.AST, f: str) -> bool | None:
+    """Is the set expression `s` disjoint from the set with canonical text `f` *by the way it is built*?
+    True: `f` was subtracted (`x - f`, `x.difference(f)`, `{v for v in x if v not in f}`), possibly narrowed further
+    (`&`, another `-`), or `s` is empty; False: `s` is built from sets of which `f` was never taken out (or is `f`);
+    None: `s` is a value whose construction cannot be seen (a parameter, the result of a loop)."""
+    s = _strip_set(s)
+    if text(s) == f:
+        return False
+    if _is_empty_set(s):
+        return True
+    if _is_opaque(s):
+        return None
+    if isinstance(s, ast.BinOp) and isinstance(s.op, ast.Sub):
+        return True if text(_strip_set(s.right)) == f else disjoint_by_construction(s.left, f)
+    if isinstance(s, ast.BinOp) and isinstance(s.op, ast.BitAnd):
+        return _kleene_any([disjoint_by_construction(s.left, f), disjoint_by_construction(s.right, f)])
+    if isinstance(s, ast.BinOp) and isinstance(s.op, (ast.BitOr, ast.BitXor)):
+        return _kleene_all([disjoint_by_construction(s.left, f), disjoint_by_construction(s.right, f)])
+    if isinstance(s, ast.Call) and isinstance(s.func, ast.Attribute) and not s.keywords \
+            and not any(isinstance(a, ast.Starred) for a in s.args):
+        base, others = s.func.value, list(s.args)
+        if s.func.attr == "difference":
+            return True if any(text(_strip_set(o)) == f for o in others) else disjoint_by_construction(base, f)
+        if s.func.attr == "intersection":
+            return _kleene_any([disjoint_by_construction(x, f) for x in [base] + others])
+        if s.func.attr in ("union", "symmetric_difference"):
+            return _kleene_all([disjoint_by_construction(x, f) for x in [base] + others])
+    if isinstance(s, (ast.SetComp, ast.ListComp, ast.GeneratorExp)) and len(s.generators) == 1 \
+            and isinstance(s.elt, ast.Name) and not s.generators[0].is_async \
+            and any(isinstance(n, ast.Name) and n.id == s.elt.id for n in ast.walk(s.generators[0].target)):  # type: ignore[attr-defined]
+        v = s.elt.id
+        for c in s.generators[0].ifs:
+            conj = c.values if isinstance(c, ast.BoolOp) and isinstance(c.op, ast.And) else [c]
+            for t in conj:
+                neg = isinstance(t, ast.UnaryOp) and isinstance(t.op, ast.Not)
+                t2 = t.operand if neg else t  # type: ignore[union-attr]
+                if isinstance(t2, ast.Compare) and len(t2.ops) == 1 and isinstance(t2.left, ast.Name) and t2.left.id == v \
+                        and isinstance(t2.ops[0], ast.In if neg else ast.NotIn) and text(_strip_set(t2.comparators[0])) == f:
+                    return True
+        return disjoint_by_construction(s.generators[0].iter, f) if isinstance(s.generators[0].target, ast.Name) else False
+    if isinstance(s, ast.IfExp):
+        return _kleene_all([disjoint_by_construction(s.body, f), disjoint_by_construction(s.orelse, f)])
+    if isinstance(s, (ast.Call, ast.Await)) and not (isinstance(s, ast.Call) and _is_pure_call(s)):
+        return None  # the result of a call that is not seen through: how it was built is not visible
+    return False
+
+
+def known_empty(p: PathSum, f: ast.AST) -> bool:
+    """The path decided that the set `f` is empty (`not f`, `len(f) == 0`, `len(f) > 0` false, `f == set()`, ...)."""
+    if _is_empty_set(f):
+        return True
+    ft = text(f)
+    n = f"len({ft})"
+    for a, val in p.atoms_where(lambda a: True):
+        ops = [text(o) for o in a.ops]
+        if a.kind == "truthy" and ops[0] in (ft, n) and val is False:
+            return True
+        if a.kind == "lt0" and ((ops == ["0", n] and val is False) or (ops == [n, "1"] and val is True)):
+            return True
+        if a.kind in ("eq", "is") and val is True and (
+                (n in ops and "0" in ops) or (ft in ops and any(_is_empty_set(o) for o in a.ops))):
+            return True
+    return False
+
+
+class _Subst(ast.NodeTransformer):
+    def __init__(self, env: dict[str, ast.AST]) -> None:
+        self.env = env
+
+    def visit_Name(self, node: ast.Name) -> ast.AST:  # noqa: N802
+        return copy.deepcopy(self.env[node.id]) if node.id in self.env else node
+
+
+def _reads_self(e: ast.AST) -> list[str]:
+    return sorted({u(n) for n in ast.walk(e) if isinstance(n, ast.Attribute) and isinstance(n.value, ast.Name) and n.value.id == "self"})
+
+
+def _args_in(e: ast.AST) -> list[str]:
+    return sorted({n.id[4:-1] for n in ast.walk(e) if isinstance(n, ast.Name) and n.id.startswith("ARG<")})
+
+
+def _lenient_paths(prog: Program, fn: FuncInfo, strict: bool = True) -> list[PathSum]:
+    """Every normal path through `fn`, parameters standing for `ARG<name>`; loops that only prepare data are stepped
+    over (their results are unknown values).  What cannot be read fails closed; with `strict` off a private helper
+    that cannot be executed in line stays an opaque call (its result is then a value of unknown construction)."""
+    try:
+        ex = Exec(prog, fn, inline_all=True, max_depth=6, lenient=True)
+        st = ex.initial({p: _arg(p) for p in fn.params if p not in ("self", "cls")})
+        ps = [p for p in ex.run_suite(fn.node.body, st) if p.exit != "raise"]
+    except Unsupported as exc:
+        raise AnalysisError(f"{fn.qual}: cannot be interpreted path by path ({exc})") from exc
+    blind = sorted({c for p in ps for c in ex.opaque_private_calls(p)})
+    if blind and strict:
+        raise AnalysisError(f"{fn.qual}: cannot see through {blind} (not interpretable path by path)")
+    return ps
+
+
+def _outcome_publisher(prog: Program) -> tuple[FuncInfo, list[PathSum], list[str]]:
+    """The method of the pool tracker through which set-power outcomes come in — found by its role: it sends a
+    `SetPowerResult` it has built — with its paths and the fields of the message class."""
+    pool = prog.cls(POOL)
+    msg = prog.resolve_name(pool.module, OUTCOME)
+    fields = _ctor_params(prog, msg) if msg is not None and hasattr(msg, "methods") else None
+    if not fields or not {"succeeded", "failed"} <= set(fields):
+        raise AnalysisError(f"{pool.qual}: the outcome message class {OUTCOME} (fields succeeded / failed) is not found")
+    found = []
+    for m in pool.methods.values():
+        if m.name.startswith("__") or not any(isinstance(n, ast.Attribute) and n.attr == "send" for n in ast.walk(m.node)):
+            continue
+        try:
+            ps = _lenient_paths(prog, m)
+        except AnalysisError:
+            if any(isinstance(n, ast.Name) and n.id == OUTCOME for n in ast.walk(m.node)):
+                raise
+            continue
+        if any(_outcome_sends(p) for p in ps):
+            found.append((m, ps))
+    if len(found) != 1:
+        raise AnalysisError(f"{pool.qual}: expected exactly one method that builds a {OUTCOME} and sends it, found "
+                            f"{sorted(m.name for m, _ps in found)}")
+    return found[0][0], found[0][1], fields
+
+
+def _outcome_sends(p: PathSum) -> list[tuple[int, ast.Call]]:
+    """The `<sender>.send(SetPowerResult(...))` calls of a path (the payload as resolved: built in place or before)."""
+    return [(i, c.args[0]) for i, c in p.calls(lambda c: isinstance(c.func, ast.Attribute) and c.func.attr == "send"
+                                             and len(c.args) == 1 and not c.keywords)
+            if isinstance(c.args[0], ast.Call) and u(c.args[0].func).split(".")[-1] == OUTCOME]
+
+
+def _publisher_sites(prog: Program, pub: FuncInfo) -> list[tuple[FuncInfo, ast.Call]]:
+    sites = []
+    for fn, call in prog.attr_call_sites(pub.name):
+        if fn.cls is pub.cls and u(call.func.value) in ("self", "super()"):  # type: ignore[attr-defined]
+            continue
+        tg = [t for t in prog.resolve_call(fn, call) if isinstance(t, FuncInfo)]
+        if tg and not any(t is pub or t.qual == pub.qual for t in tg):
+            continue  # resolved to another class's method of the same name
+        sites.append((fn, call))
+    return sites
+
+
+def check_outcome(run: Run, prog: Program) -> None:  # noqa: C901
+    """What the per-battery trackers are told about a power command is the outcome itself: (1) the pool tracker
+    forwards the sets it is given — every outcome, the failed set as given, nothing filtered by its own view of the
+    statuses; (2) at every place that reports an outcome, the succeeded set that finally reaches the trackers is
+    disjoint from the failed set by construction on every path (or the failed set is known empty there)."""
+    pub, ppaths, fields = _outcome_publisher(prog)
+    run.analysed(pub.qual)
+    here = dict(node=pub.node, file=pub.file)
+    # (1a) every outcome is forwarded, once
+    bad = first([p for p in ppaths if len(_outcome_sends(p)) != 1])
+    run.check(bad is None, "C16.OUTCOME", pub.qual, f"every path sends exactly one {OUTCOME}",
+              f"{pub.name}() does not forward every outcome exactly once (a path sends "
+              f"{len(_outcome_sends(bad)) if bad is not None else '?'} {OUTCOME}): an outcome that is dropped — e.g. forwarded "
+              "only when something failed, or only while a component is uncertain — never unblocks / never blocks the "
+              "battery; one sent twice is counted as two consecutive failures", path=wit(bad), **here)
+    if bad is not None:
+        return
+    variants: dict[str, tuple[ast.AST, ast.AST]] = {}
+    for p in ppaths:
+        bound = _bind_site(_outcome_sends(p)[0][1], fields)
+        if bound is None or "succeeded" not in bound or "failed" not in bound:
+            raise AnalysisError(f"{pub.qual}: cannot bind the arguments of `{first_line_of(_outcome_sends(p)[0][1])}`")
+        variants.setdefault(text(bound["succeeded"]) + " / " + text(bound["failed"]), (bound["succeeded"], bound["failed"]))
+    # (1b) neither field looks at the pool tracker's own state
+    state = [(fld, e, _reads_self(e)) for sv, fv in variants.values() for fld, e in (("succeeded", sv), ("failed", fv)) if _reads_self(e)]
+    run.check(not state, "C16.OUTCOME", pub.qual, f"{OUTCOME}(succeeded=, failed=) do not depend on the pool's own state",
+              (f"{pub.name}() sends `{state[0][0]}={_show(state[0][1])}`: the outcome is filtered by the pool tracker's own "
+               f"state ({', '.join(state[0][2])}) before it reaches the per-battery trackers.  That view lags behind the "
+               "trackers (and lists a blocked battery as uncertain, not working): a failure reported for a battery whose "
+               "block has expired but which has not been re-published as working — or which is used as uncertain fall-back "
+               "— is dropped, the tracker re-evaluates, finds the block over and reports WORKING; the back-off does not "
+               "double.  Likewise a success dropped for a battery 'not uncertain' never resets the back-off.  Only the "
+               "tracker itself may decide whether an outcome matters (`_last_status`, block()/unblock())") if state else "",
+              **here)
+    if state:
+        return
+    # (1c) the failed set is forwarded as given; each field has its own argument
+    roles: set[tuple[str, str]] = set()
+    s_fields: list[ast.AST] = []
+    ok_f, why_f = True, ""
+    for sv, fv in variants.values():
+        f0 = _strip_set(fv)
+        if not (isinstance(f0, ast.Name) and f0.id.startswith("ARG<")):
+            ok_f = False
+            why_f = why_f or (f"`failed={_show(fv)}` is not the failed set {pub.name}() was given (narrowed, widened or "
+                              "replaced): failures that are taken out never block their battery, components that are put in "
+                              "are blocked without having failed")
+            continue
+        pf = f0.id[4:-1]
+        ps_ = [a for a in _args_in(sv) if a != pf]
+        if len(ps_) != 1:
+            ok_f = False
+            why_f = why_f or (f"`succeeded={_show(sv)}` is not built from an argument of its own (both fields are fed from "
+                              f"`{pf}`, or from nothing the caller reported)")
+            continue
+        roles.add((ps_[0], pf))
+        s_fields.append(sv)
+    run.check(ok_f, "C16.OUTCOME", pub.qual, f"{OUTCOME}(failed=<the failed set as given>, succeeded=<from its own argument>)",
+              f"{pub.name}(): {why_f}", **here)
+    if not ok_f:
+        return
+    if len(roles) != 1:
+        raise AnalysisError(f"{pub.qual}: the paths disagree on which argument is the succeeded / the failed set: {sorted(roles)}")
+    p_succ, p_fail = next(iter(roles))
+    crossed = "fail" in p_succ.lower() or "succ" in p_fail.lower()
+    run.check(not crossed, "C16.OUTCOME", pub.qual, f"{OUTCOME}: succeeded <- {p_succ}, failed <- {p_fail}",
+              f"{pub.name}() forwards its argument `{p_succ}` as the succeeded set and `{p_fail}` as the failed set: the two "
+              "roles are swapped — every failed command unblocks, every successful one blocks", **here)
+    # (2) the reporting sites
+    sites = _publisher_sites(prog, pub)
+    if not sites:
+        loose = [f.qual for f in prog.all_functions() if f.cls is not pub.cls for n in ast.walk(f.node)
+                 if isinstance(n, ast.Attribute) and n.attr == pub.name]
+        if loose:
+            raise AnalysisError(f"{loose[0]}: {pub.name} is used but not called on the spot; cannot tell which outcome is reported")
+    run.check(bool(sites), "C16.OUTCOME", pub.qual, f"{pub.name}() is called where power commands are issued",
+              f"nothing calls {pub.qual}: the outcome of a power command never reaches the trackers, a failed command never "
+              "makes a battery uncertain", **here)
+    pub_params = [p for p in pub.params if p not in ("self", "cls")]
+
+    def judge(root: FuncInfo, depth: int) -> tuple[bool | None, PathSum | None, str, ast.Call | None]:
+        """(verdict, witness path, explanation, the reporting call) over every path of `root` that reports an outcome."""
+        paths = _lenient_paths(prog, root, strict=False)
+        worst: tuple[bool | None, PathSum | None, str, ast.Call | None] = (True, None, "", None)
+        seen = False
+        for p in paths:
+            for _i, c in p.calls(lambda c: isinstance(c.func, ast.Attribute) and c.func.attr == pub.name
+                                 and text(c.func.value) not in ("self", "super()")):
+                seen = True
+                b = _bind_site(c, pub_params)
+                if b is None or p_succ not in b or p_fail not in b:
+                    raise AnalysisError(f"{root.qual}: cannot bind the arguments of `{first_line_of(c)}` to {pub.qual}")
+                f = _strip_set(b[p_fail])
+                ft = text(f)
+                # the set the requester is told has failed (a result built on this path with a `failed_components` field)
+                told = [text(t) for t in (_strip_set(k.value) for _j, rc in p.calls(lambda rc: True) for k in rc.keywords
+                                          if k.arg == "failed_components") if text(t) != ft and not known_empty(p, t)]
+                if told and worst[0] is True:
+                    worst = (False, p, f"`{_show(u(c))[:90]}` reports `{_show(ft)}` to the trackers as the failed set, while the "
+                             f"result returned to the requester names `{_show(told[0])}` as failed: the trackers are not told the outcome of "
+                             "this command (sets swapped, or the failures withheld)", c)
+                    continue
+                if known_empty(p, f):
+                    continue
+                for sv in s_fields:
+                    s_final = _Subst({_arg(p_succ): b[p_succ], _arg(p_fail): b[p_fail]}).visit(copy.deepcopy(sv))
+                    v = disjoint_by_construction(s_final, ft)
+                    if v is True:
+                        continue
+                    if v is None and worst[0] is True:
+                        worst = (None, p, f"cannot tell how the succeeded set `{_show(_strip_set(s_final))}` is built", c)
+                    if v is False and worst[0] is not False:
+                        worst = (False, p, f"`{_show(u(c))[:90]}`: on a path where the failed set `{_show(ft)}` may be non-empty the "
+                                 f"succeeded set that reaches the trackers is `{_show(s_final)}` — the failed set was "
+                                 "never taken out of it", c)
+        if not seen:
+            raise AnalysisError(f"{root.qual}: the call of {pub.name}() is not on any path that can be read")
+        if worst[0] is not True and depth < 3 and root.cls is not None and root.name.startswith("_") and worst[1] is not None \
+                and worst[3] is not None and any(_args_in(a) for a in list(worst[3].args) + [k.value for k in worst[3].keywords]):
+            # the sets come in through parameters of a private helper: judge from its callers instead
+            ups = [m for m in root.cls.methods.values() if m is not root and any(
+                isinstance(n, ast.Call) and isinstance(n.func, ast.Attribute) and u(n.func.value) == "self" and n.func.attr == root.name
+                for n in ast.walk(m.node))]
+            if ups:
+                res = [judge(m, depth + 1) for m in ups]
+                for r in res:
+                    if r[0] is not True:
+                        return r
+                return res[0]
+        return worst
+
+    for fn, call in sites:
+        if fn.outer is not None or _loops_around(fn.node, call):
+            raise AnalysisError(f"{fn.qual}: `{first_line_of(call)}` sits in a loop / nested function; cannot follow the sets it reports")
+        run.analysed(fn.qual)
+        verdict, p, why, c = judge(fn, 0)
+        if verdict is None:
+            raise AnalysisError(f"{fn.qual}: {why} (`{_show(u(c))[:90] if c is not None else pub.name}`)")
+        run.check(verdict, "C16.OUTCOME", fn.qual, f"{pub.name}(<succeeded> disjoint from <failed> by construction)",
+                  (f"{why}.  Siblings: the two sets swapped at the call, `set()` passed although commands failed, another "
+                   "set than the one named in the PartialFailure" if "returned to the requester" in why else "") or
+                  f"{why}.  A battery named in both sets is treated by its tracker as succeeded (`in succeeded` is tested "
+                  "first): its failed command unblocks it instead of blocking it — it is never reported uncertain, keeps being "
+                  "chosen, and the back-off never starts.  On every path that reports an outcome the succeeded set must be "
+                  "`<commanded> - <failed>` (or the failed set known empty); the same holds when the subtraction is kept only "
+                  "for the result object, hoisted above a branch that needs it, or the failed set is merged back in",
+                  node=call, file=fn.file, path=wit(p), instance=f"{fn.qual} -> {pub.name}: succeeded and failed disjoint")
+
+
 CONTROLS = [
     ("or instead of and in the battery conjunction", MOD,
      "            and self._is_battery_state_correct(bat_data)\n", "            or self._is_battery_state_correct(bat_data)\n", "C16.SAFE"),
@@ -1484,6 +1839,34 @@ def located_controls(prog: Program) -> list[tuple[str, str, str, str, str]]:
     if rx2 is not None:
         out.append(_control_at("two receivers of each tracker's status channel are merged", pool.module, rx2,
                                f"merge({u(rx2)}, {u(rx2)})", "C16.WIRE"))
+    # the outcome handed to the trackers: the fields of the SetPowerResult the pool tracker builds, and the sets the
+    # reporting site passes (all placed by role: the message constructor, the call of the publishing method)
+    msg = prog.resolve_name(pool.module, OUTCOME)
+    fields = (_ctor_params(prog, msg) if msg is not None and hasattr(msg, "methods") else None) or []
+    built = first([n for n in ast.walk(pool.node) if isinstance(n, ast.Call) and u(n.func).split(".")[-1] == OUTCOME])
+    bound = _bind_site(built, fields) if built is not None else None
+    if bound is not None and {"succeeded", "failed"} <= set(bound):
+        out.append(_control_at("only failures of components the pool lists as working are forwarded", pool.module,
+                               bound["failed"], f"{u(bound['failed'])} & self._current_status.working", "C16.OUTCOME"))
+        out.append(_control_at("the failed components are also forwarded as succeeded", pool.module,
+                               bound["succeeded"], f"{u(bound['succeeded'])} | {u(bound['failed'])}", "C16.OUTCOME"))
+    try:
+        pub = _outcome_publisher(prog)[0]
+        sites = _publisher_sites(prog, pub)
+    except AnalysisError:
+        pub, sites = None, []
+    for fn, call in sites[:1]:
+        b = _bind_site(call, [p for p in pub.params if p not in ("self", "cls")])  # type: ignore[union-attr]
+        if b is not None and len(b) == 2:
+            a0, a1 = list(b.values())
+            out.append(_control_at("the trackers are told that the failed batteries succeeded as well", fn.module, a0,
+                                   f"{u(a0)} | {u(a1)}", "C16.OUTCOME"))
+            sub = first([n for n in ast.walk(fn.node) if isinstance(n, ast.Assign) and len(n.targets) == 1
+                         and u(n.targets[0]) in (u(a0), u(a1)) and isinstance(n.value, ast.BinOp) and isinstance(n.value.op, ast.Sub)
+                         and u(n.value.right) in (u(a0), u(a1))])
+            if sub is not None:
+                out.append(_control_at("the failed batteries are not taken out of the succeeded set", fn.module, sub.value,
+                                       u(sub.value.left), "C16.OUTCOME"))  # type: ignore[attr-defined]
     init = tr.methods.get("__init__")
     hit = first([s_ for s_ in stmts(tr) if isinstance(s_, (ast.Assign, ast.AnnAssign)) and s_.value is not None
                  and u(s_.targets[0] if isinstance(s_, ast.Assign) else s_.target) == "self._max_data_age"]) if init else None
@@ -1499,6 +1882,7 @@ def run_rules(run: Run, prog: Program) -> None:
     check_change(run, prog)
     check_block(run, prog)
     check_pool(run, prog)
+    check_outcome(run, prog)
     check_wiring(run, prog)
 
 
@@ -1520,7 +1904,12 @@ def check(run: Run, prog: Program, tier: str) -> str:
              "channel the set-power results are published on, with at least the default buffer; the channel a tracker "
              "reports its ComponentStatus on has exactly one receiver (made as often as the channel), so the pool's "
              "status loop sees — and publishes — every change once")
+    run.rule("C16.OUTCOME", "what the per-battery trackers are told about a power command is its outcome: the pool tracker "
+             "forwards every (succeeded, failed) pair once, the failed set as given and nothing filtered by its own view "
+             "of the statuses; at every site that reports an outcome the succeeded set that reaches the trackers is "
+             "disjoint from the failed set by construction on every path (failed subtracted, or known empty)")
     run_rules(run, prog)
+    run.floor("C16.OUTCOME", 6)
     run.floor("C16.POOL", 4)
     run.floor("C16.WIRE", 12)
     run.floor("C16.SAFE", 14)
